@@ -237,6 +237,40 @@ theorem cex_comment_around_semicolon : ¬ frag_fixed_point_full := by
   have := h semiFile semiFile2 _ _ (by decide) (by decide) rfl (by decide) (by decide) rfl
   revert this; decide
 
+/-- full statement (false): the fixed-point statement for ALL comment-free files of the fragment (every lexical
+    item of the tree is a code token), i.e. `frag_fixed_point_comment_free` without the restriction of
+    `Cst.cf` to the constructs other than `assert` -/
+def frag_fixed_point_nocomment_full : Prop :=
+  ∀ (f f2 : File) (s s2 : Src), f.wf = true → f.noLeadingWs = true → f.items.lex.length = f.codeTokens.length →
+    f.parse = .ok s → f2.wf = true → f2.flatten = s.rebuild → f2.parse = .ok s2 → s2.rebuild = s.rebuild
+
+/-- `{ a = assert x; y; }` -/
+def assertSetFile : File :=
+  { items := .elem [] (.set false [] (.bind " ".toList "a".toList [] " ".toList [] " ".toList
+      (.kw false [] " ".toList (.leaf .ident "x".toList) [] [] [] " ".toList (.leaf .ident "y".toList)) [] [] .nil) " ".toList) .nil,
+    endGap := "\n".toList }
+
+/-- the tree of its output `{ a = assert x;⏎  y; }` -/
+def assertSetFile2 : File :=
+  { items := .elem [] (.set false [] (.bind " ".toList "a".toList [] " ".toList [] " ".toList
+      (.kw false [] " ".toList (.leaf .ident "x".toList) [] [] [] "\n  ".toList (.leaf .ident "y".toList)) [] [] .nil) " ".toList) .nil,
+    endGap := "\n".toList }
+
+/-- NEW FINDING `C06-fragment-assert-in-one-line-container`: `Assertion.rebuild` (expressions/assertion.py)
+    always writes the body on a line of its own. Inside a container written on one line the first pass
+    therefore puts a line break into the container (`{ a = assert x; y; }` -> `{ a = assert x;⏎  y; }`), and
+    the second pass, which reads the container as spanning several lines, lays it out again
+    (-> `{⏎  a = assert x;⏎  y;⏎}`): not a fixed point, without any comment. Hence `assert` stays outside
+    `Cst.cf`; a normaliser for it would need the exclusion "no `assert` inside a one-line container". -/
+theorem cex_assert_in_one_line_container : ¬ frag_fixed_point_nocomment_full := by
+  intro h
+  have := h assertSetFile assertSetFile2 _ _ (by decide) (by decide) (by decide) rfl (by decide) (by decide) rfl
+  revert this; decide
+
+example : assertSetFile.flatten = "{ a = assert x; y; }\n".toList := by decide
+example : assertSetFile.roundtrip = .ok "{ a = assert x;\n  y; }\n".toList := by decide
+example : assertSetFile2.roundtrip = .ok "{\n  a = assert x;\n  y;\n}\n".toList := by decide
+
 /-- The second pass is always defined and keeps tokens and (when no comment overtakes another)
     comments of the tree it reads — the instance of `C01.frag_parse_total` /
     `C01.frag_tokens_preserved` for `f2`. What is NOT proved is the equality of the whitespace. -/
